@@ -94,7 +94,18 @@ type Axiom struct {
 	Pkg   string
 }
 
+type TypeInv struct {
+	Pkg, Type string
+	Ctors     []string
+	Expr      *SExpr
+	Src       string
+	File      string
+	Line      int
+	Broken    string // set by the syntactic immutability check
+}
+
 type ContractSet struct {
+	TypeInvs map[string]*TypeInv
 	ByName  map[string]*Contract // pkg + "." + Name
 	Ghosts  map[string]*GhostVar
 	Specs   map[string]*SpecFunc
@@ -106,12 +117,12 @@ type ContractSet struct {
 }
 
 func NewContractSet() *ContractSet {
-	return &ContractSet{ByName: map[string]*Contract{}, Ghosts: map[string]*GhostVar{}, Specs: map[string]*SpecFunc{}, Defines: map[string]*Define{}}
+	return &ContractSet{TypeInvs: map[string]*TypeInv{}, ByName: map[string]*Contract{}, Ghosts: map[string]*GhostVar{}, Specs: map[string]*SpecFunc{}, Defines: map[string]*Define{}}
 }
 
 var reFuncHdr = regexp.MustCompile(`^func\s+(?:\(([^)]*)\)\s*)?([A-Za-z_$][\w$.]*)`)
 var rePropLabel = regexp.MustCompile(`^\s*((?:C\d+,?)+/)?([A-Za-z_][\w\-.]*)\s*:\s+`)
-var keywords = []string{"purepkg", "noreturn", "func", "iface", "props", "requires", "ensures", "modifies", "decreases", "may_panic", "no_panic", "pure", "trusted", "opaque", "inline", "loop", "ghost", "spec", "define", "axiom", "package"}
+var keywords = []string{"typeinv", "purepkg", "noreturn", "func", "iface", "props", "requires", "ensures", "modifies", "decreases", "may_panic", "no_panic", "pure", "trusted", "opaque", "inline", "loop", "ghost", "spec", "define", "axiom", "package"}
 
 func startsWithKeyword(s string) string {
 	for _, k := range keywords {
@@ -221,6 +232,26 @@ func (cs *ContractSet) LoadFile(path, pkg string, trusted bool) {
 			cur = nil
 		case "purepkg":
 			cs.PurePkgs = append(cs.PurePkgs, rest)
+		case "typeinv":
+			// typeinv <Type> by f1,f2: expr over self
+			m := regexp.MustCompile(`^(\w+)\s+by\s+([\w$.,\s]+?)\s*:\s*(.+)$`).FindStringSubmatch(rest)
+			if m == nil {
+				errf(l.line, "bad typeinv (want: typeinv T by ctor1,ctor2: expr)")
+				continue
+			}
+			e, err := ParseSpec(m[3])
+			if err != nil {
+				errf(l.line, "typeinv %s: %v", m[1], err)
+				continue
+			}
+			ti := &TypeInv{Pkg: pkg, Type: m[1], Expr: e, Src: m[3], File: path, Line: l.line}
+			for _, c := range strings.Split(m[2], ",") {
+				if c = strings.TrimSpace(c); c != "" {
+					ti.Ctors = append(ti.Ctors, c)
+				}
+			}
+			cs.TypeInvs[pkg+"."+m[1]] = ti
+			cur = nil
 		case "func", "iface":
 			m := reFuncHdr.FindStringSubmatch("func " + rest)
 			if m == nil {
